@@ -1,5 +1,6 @@
 import BigtoolsModel.Driver.Small
 import BigtoolsModel.Driver.WigBed
+import BigtoolsModel.Driver.Files
 /-! `bbmodel <cases-file>`: answers every case of the line protocol with the executable model. -/
 namespace Drv
 
@@ -9,6 +10,7 @@ def runCase (c : Case) : List String :=
   match c.kind with
   | "wig" => wigCase c
   | "bed" => bedCase c
+  | "wigops" | "bedops" => opsCase c
   | "tempbuf" => tempbuf c
   | "fileview" => fileview c
   | "chunks" => chunks c
@@ -27,7 +29,20 @@ def main (args : List String) : IO UInt32 := do
     let out ← IO.getStdout
     for c in Drv.parseCases text do
       out.putStrLn s!"CASE {c.id}"
-      for l in Drv.runCase c do out.putStrLn l
+      let lines ← match c.kind with
+        | "readwig" | "wfwig" | "wfbed" =>
+          match (c.records "FILE").head? with
+          | some l =>
+            try
+              let bytes ← IO.FS.readBinFile (l.getD 1 "")
+              pure (match c.kind with
+                | "readwig" => Drv.readWigFile bytes c
+                | "wfwig" => Drv.wfWigFile bytes
+                | _ => Drv.wfBedFile bytes)
+            catch _ => pure ["R no-such-file"]
+          | none => pure ["R no-file-line"]
+        | _ => pure (Drv.runCase c)
+      for l in lines do out.putStrLn l
       out.putStrLn "END"
     out.flush
     return 0
